@@ -36,3 +36,5 @@ for p in sensitivity/patches/revert-*.diff; do
 	[ -z "$id" ] && { echo "no fixed: entry for $c"; continue; }
 	run /verif/$p $id
 done
+# the runs above overwrote evidence/<id>.json with the (violating) runs' records: restore the committed ones
+git -C /verif checkout -- evidence
